@@ -200,6 +200,7 @@ class DtdMapper:
         elif content_type == DtdContentType.SEQ:
             params = cls.build_sequence_occurs(content.occur)
             cls.merge_occurs(params, kwargs)
+            params["path"] = cls.build_path(kwargs, "s", content)
             cls.build_content_tree(target, content, **params)
         elif content_type == DtdContentType.OR:
             params = cls.build_occurs(content.occur)
@@ -210,6 +211,7 @@ class DtdMapper:
                 }
             )
             cls.merge_occurs(params, kwargs)
+            params["path"] = cls.build_path(kwargs, "c", content)
             cls.build_content_tree(target, content, **params)
         else:  # content_type == DtdContentType.PCDATA:
             restrictions = cls.build_restrictions(content.occur, **kwargs)
@@ -229,6 +231,16 @@ class DtdMapper:
 
         if content.right:
             cls.build_content(target, content.right, **kwargs)
+
+    @classmethod
+    def build_path(cls, parent: dict, name: str, content: DtdContent) -> list:
+        """Extend the path of the enclosing groups with the given group.
+
+        The occurrences of the group are already merged into its
+        members, the path only records the nesting, so that a sequence
+        inside a choice still counts as more than one element.
+        """
+        return [*parent.get("path", []), (name, id(content), 1, 1)]
 
     @classmethod
     def build_occurs(cls, occur: DtdContentOccur) -> dict:
